@@ -227,6 +227,10 @@ class FnTranslator:
         raise Unsupported(f"line {e.lineno}: subscript of {base.kind}")
 
     def attribute(self, e: ast.Attribute, env: Env) -> Val:
+        if isinstance(e.value, ast.Name) and e.value.id in ("np", "math", "_np") and e.attr == "pi":
+            return Val("RealLike.pi", "R")
+        if isinstance(e.value, ast.Name) and e.value.id == "self" and f"self.{e.attr}" in self.sig:
+            return Val(e.attr, self.sig[f"self.{e.attr}"])
         if e.attr in ("shape",):
             b = self.expr(e.value, env)
             if b.kind in ("A", "A2", "IA"):
@@ -281,8 +285,11 @@ class FnTranslator:
                 if not (kw.arg == "dtype" and ast.unparse(kw.value) in ("np.float64", "np.int64")):
                     raise Unsupported(f"line {e.lineno}: {fu} keyword {kw.arg}")
             return self.expr(e.args[0], env)
-        if isinstance(f, ast.Attribute) and f.attr == "copy_to_host" and not e.args:
-            return self.expr(f.value, env)
+        if isinstance(f, ast.Attribute) and f.attr in ("copy_to_host", "copy") and not e.args:
+            v = self.expr(f.value, env)
+            if v.kind not in ("A", "A2", "IA"):
+                raise Unsupported(f"line {e.lineno}: .{f.attr}() of a non-array")
+            return v          # arrays are values in the model: a copy is the same value
         if name in self.known:
             info = self.known[name]
             args = [self.expr(a, env) for a in e.args]
@@ -340,6 +347,37 @@ class FnTranslator:
             return self.block(rest, env, ind, final)
         if isinstance(s, ast.Assign) and "_require_args(" in ast.unparse(s.value):
             return self.block(rest, env, ind, final)          # parameters come from the signature table
+        if (isinstance(s, ast.Assign) and len(s.targets) == 1 and isinstance(s.targets[0], ast.Tuple) and isinstance(s.value, ast.Subscript)
+                and isinstance(s.value.value, ast.Name) and env.kinds.get(s.value.value.id) == "A2"):
+            # a0, a1 = M[i]  -> the entries of row i
+            row = self.expr(s.value.slice, env)
+            if row.kind != "N" or not all(isinstance(t, ast.Name) for t in s.targets[0].elts):
+                raise Unsupported(f"line {s.lineno}: row unpacking")
+            out = ""
+            env = env.copy()
+            for c, t in enumerate(s.targets[0].elts):
+                out += f"{ind}let {t.id} : α := {s.value.value.id}.get {row.code} {c}\n"
+                env.kinds[t.id] = "R"
+            return out + self.block(rest, env, ind, final)
+        if (isinstance(s, ast.Assign) and len(s.targets) == 1 and isinstance(s.targets[0], ast.Subscript)
+                and isinstance(s.targets[0].value, ast.Name) and env.kinds.get(s.targets[0].value.id) in ("A", "A2")
+                and s.targets[0].value.id not in env.pending):
+            tgt = s.targets[0]
+            name = tgt.value.id
+            v = self.to_real(self.expr(s.value, env))
+            if env.kinds[name] == "A":
+                i = self.expr(tgt.slice, env)
+                if i.kind != "N":
+                    raise Unsupported(f"line {s.lineno}: store index kind")
+                code = f"{ind}let {name} : Arr α := Arr.set {name} {i.code} {v.code}\n"
+            else:
+                if not (isinstance(tgt.slice, ast.Tuple) and len(tgt.slice.elts) == 2):
+                    raise Unsupported(f"line {s.lineno}: 2-D store index")
+                i, j = (self.expr(x, env) for x in tgt.slice.elts)
+                if i.kind != "N" or j.kind != "N":
+                    raise Unsupported(f"line {s.lineno}: store index kind")
+                code = f"{ind}let {name} : Arr2 α := Arr2.set {name} {i.code} {j.code} {v.code}\n"
+            return code + self.block(rest, env, ind, final)
         if isinstance(s, ast.Assign) and len(s.targets) == 1 and isinstance(s.targets[0], ast.Tuple) and isinstance(s.value, ast.Tuple):
             tg, vs = s.targets[0].elts, s.value.elts
             if len(tg) != len(vs) or not all(isinstance(t, ast.Name) for t in tg):
@@ -568,6 +606,19 @@ class FnTranslator:
         inner.kinds[var] = "N"
         assigned = self.assigned_names(s.body)
         carried = sorted(n for n in assigned if n in env.kinds)
+        stored_existing = []
+        for st_ in stores:
+            b_ = st_.targets[0].value
+            if isinstance(b_, ast.Name) and b_.id in env.kinds and b_.id not in env.pending and env.kinds[b_.id] in ("A", "A2"):
+                if b_.id not in stored_existing:
+                    stored_existing.append(b_.id)
+        if stored_existing:
+            if parallel:
+                raise Unsupported(f"line {s.lineno}: prange loop updates an existing array (not a map loop: race-freedom premise)")
+            if len(stored_existing) != len({st_.targets[0].value.id for st_ in stores if isinstance(st_.targets[0].value, ast.Name)}):
+                raise Unsupported(f"line {s.lineno}: loop mixes stores into new and existing arrays")
+            carried = sorted(set(carried) | set(stored_existing))
+            stores = []
         if stores:
             # MAP loop: every store is `arr[var] = e` at top level of the body into a pending array; nothing carried
             tops = [st for st in s.body if isinstance(st, ast.Assign) and isinstance(st.targets[0], ast.Subscript)]
@@ -619,11 +670,11 @@ class FnTranslator:
         if not carried:
             raise Unsupported(f"line {s.lineno}: loop with no effect")
         for n in carried:
-            if env.kinds[n] not in ("R", "N", "Z"):
+            if env.kinds[n] not in ("R", "N", "Z", "A", "A2"):
                 raise Unsupported(f"line {s.lineno}: carried {n} of kind {env.kinds[n]}")
         self.tmp += 1
         st = f"st{self.tmp}"
-        tys = " × ".join({"R": "α", "N": "Nat", "Z": "Int"}[env.kinds[n]] for n in carried)
+        tys = " × ".join({"R": "α", "N": "Nat", "Z": "Int", "A": "Arr α", "A2": "Arr2 α"}[env.kinds[n]] for n in carried)
         inner2 = inner.copy()
 
         def fin(e2: Env) -> str:
@@ -844,6 +895,36 @@ def gen_sched(repo: str = REPO) -> Tuple[str, List[str]]:
     return out, errors
 
 
+NOISE_SIGS = {
+    "_numba_lfilter_cascade": {"samples": "A", "a_coeffs": "A2", "b_coeffs": "A2", "zi_states": "A2"},
+    "_calc_filter_coeffs": {"f_min": "R", "f_max": "R", "self.fs": "R"},
+}
+
+
+def gen_noise(repo: str = REPO) -> Tuple[str, List[str]]:
+    path = os.path.join(repo, "speckit/noise.py")
+    fns = parse_functions(path)
+    out = HEADER.format(src="speckit/noise.py", sha=sha_of(path))
+    errors: List[str] = []
+    for name in ("_numba_lfilter_cascade", "_calc_filter_coeffs"):
+        try:
+            if name not in fns:
+                raise Unsupported("function not found")
+            tr = FnTranslator(fns[name], NOISE_SIGS[name], {}, name)
+            if name == "_calc_filter_coeffs":
+                fn = fns[name]
+                fn.args.args = [a for a in fn.args.args if a.arg != "self"] + [ast.arg(arg="fs")]
+                tr.sig = dict(NOISE_SIGS[name], fs="R")
+            text, _ = tr.translate()
+            out += text + "\n"
+        except Unsupported as ex:
+            errors.append(f"{name}: {ex}")
+            msg = str(ex).replace("-/", "- /")
+            out += f"/- UNSUPPORTED {name}: {msg} -/\ndef {name}_UNSUPPORTED : Nat := translation_failed_{name}\n\n"
+    out += "end Gen\n"
+    return out, errors
+
+
 UTILS_SIGS = {"kaiser_alpha": {"psll": "R"}, "kaiser_rov": {"alpha": "R"}, "round_half_up": {"val": "R"}}
 
 
@@ -879,6 +960,9 @@ def regenerate(repo: str = REPO) -> Dict[str, List[str]]:
     text, _k, errs = gen_utils(repo)
     write_if_changed(os.path.join(GEN_DIR, "Utils.lean"), text)
     report["Utils"] = errs
+    text, errs = gen_noise(repo)
+    write_if_changed(os.path.join(GEN_DIR, "Noise.lean"), text)
+    report["Noise"] = errs
     text, errs = gen_sched(repo)
     write_if_changed(os.path.join(GEN_DIR, "Sched.lean"), text)
     report["Sched"] = errs
